@@ -129,9 +129,10 @@ models.NATIVE[G.print_ast] = _print_ast
 V.REG.register(G.GraphQLArgument, ["type", "default_value", "description", "deprecation_reason"],
                build=lambda type=None, default_value=G.Undefined, description=None, deprecation_reason=None:
                G.GraphQLArgument(type or G.GraphQLInt, default_value=default_value, description=_descr(description), deprecation_reason=_descr(deprecation_reason)))
-V.REG.register(G.GraphQLInputField, ["type", "default_value", "description", "deprecation_reason"],
-               build=lambda type=None, default_value=G.Undefined, description=None, deprecation_reason=None:
-               G.GraphQLInputField(type or G.GraphQLInt, default_value=default_value, description=_descr(description), deprecation_reason=_descr(deprecation_reason)))
+V.REG.register(G.GraphQLInputField, ["type", "default_value", "description", "deprecation_reason", "ast_node"],
+               build=lambda type=None, default_value=G.Undefined, description=None, deprecation_reason=None, ast_node=None:
+               G.GraphQLInputField(type or G.GraphQLInt, default_value=default_value, description=_descr(description), deprecation_reason=_descr(deprecation_reason),
+                                   ast_node=ast_node if isinstance(ast_node, G.InputValueDefinitionNode) else None))
 V.REG.register(G.GraphQLField, ["type", "args", "description", "deprecation_reason"],
                build=lambda type=None, args=None, description=None, deprecation_reason=None:
                G.GraphQLField(type or G.GraphQLInt, args={k: v for k, v in (args or {}).items() if isinstance(v, G.GraphQLArgument)}, description=_descr(description), deprecation_reason=_descr(deprecation_reason)))
